@@ -554,15 +554,11 @@ def history(sl: int, bs: int, o0: int, x0: int, y0: int, o1: int, x1: int, y1: i
         # the OS now accepts everything: at most two doWrite calls hand over all that was written, in order
         # (two because a dataBuffer of >= SEND_LIMIT unsent bytes goes out before the pending pieces)
         asked = bool(fd.disconnecting)
-        for i in range(3):
+        for i in range(2):
             if closed:
-                break
-            if i == 2 and not (fd.reactor.writing and asked):
                 break
             ok, A, W, closed = _op_dowrite(fd, A, W, 8 * B['cap'])
             if not ok:
-                return False
-            if i == 1 and A != W:
                 return False
         cover()
         if A != W:
@@ -602,8 +598,7 @@ VECTORS = {
     "step_producer": [(0, 1, 0, 0, 0, 0, 3, 4, 0, False, True, False, False, True, 1),
                       (0, 1, 0, 0, 0, 0, 3, 4, 2, False, True, False, False, True, 2),
                       (0, 1, 0, 0, 0, 0, 3, 4, 1, False, True, False, False, True, 0)],
-    "step_lose": [(0, 1, 0, 0, 0, 0, 3, 4, 1, False, False, True, True, True, False) if False else
-                  (0, 0, 0, 0, 0, 0, 3, 4, 1, False, False, True, True, False, False),
+    "step_lose": [(0, 0, 0, 0, 0, 0, 3, 4, 1, False, False, True, True, False, False),
                   (0, 3, 1, 1, 2, 0, 3, 4, 0, False, False, False, False, True, False),
                   (0, 3, 1, 1, 2, 0, 3, 4, 0, False, False, False, False, True, True)],
     "history": [(4, 3, 0, 5, 0, 2, 2, 0, 6, 0, 0, 8, 0, 0), (1, 0, 3, 0, 0, 1, 2, 3, 2, 1, 0, 8, 0, 0),
